@@ -15,7 +15,7 @@ Theorem C23_two_participants : forall sched,
 Proof. exact two_participants_safe. Qed.
 Print Assumptions C23_two_participants.
 
-(* THREE participants: the same invariants on all 22998 states of the exhaustive exploration (states are identified by
+(* THREE participants: the same invariants on all 25860 states of the exhaustive exploration (states are identified by
    their encoding; the closure of that set is not re-proved structurally, so this is an exhaustive computation, weaker than
    the theorem above) *)
 Theorem C23_three_participants_explored : forallb (fun s => p1 s && p3 s) (reach 3 [1; 2]) = true.
